@@ -124,7 +124,7 @@ def run_case(case):
     net = scenario.random_net(rng, allow_small_pipe=False)
     if case.get("net"):
         net.update(case["net"])
-    sc = {"seed": case["seed"], "server": {"block_size": case.get("B", 16), "wait_future_timeout": 5.0, "users": users_spec()}, "net": net, "fs": {"delay": case.get("fs_delay"), "short_reads": False}}
+    sc = {"seed": case["seed"], "server": {"block_size": case.get("B", 16), "wait_future_timeout": case.get("wait", 5.0), "users": users_spec()}, "net": net, "fs": {"delay": case.get("fs_delay"), "short_reads": False}}
     viol = []
     info = {}
     world = scenario.setup_world(sc)
@@ -258,6 +258,13 @@ CORE = [
 ]
 
 
+CORE_WAIT_NONE = [
+    [["USER", "anonymous"], ["EPSV", ""], ["RETR", "f", {"connect": "after"}], ["PWD", ""]],
+    [["USER", "anonymous"], ["PASV", ""], ["STOR", "new", {"connect": "after"}], ["RETR", "new", {"connect": "after"}]],
+    [["USER", "anonymous"], ["EPSV", ""], ["LIST", "d", {"connect": "after"}], ["MLSD", "", {"connect": "after"}], ["APPE", "f", {"connect": "after"}]],
+]
+
+
 def selftest_cases(n):
     out = []
     for i in range(n):
@@ -287,6 +294,9 @@ def main(argv=None):
     n = 4000 if quick else 600000
     with common.Pool() as pool:
         cases = [{"seed": a.seed * 100 + i, "ops": ops, "core": True} for i, ops in enumerate(CORE)]
+        # wait_future_timeout=None ("wait without limit"): the data connection is made after the command
+        for j, ops in enumerate(CORE_WAIT_NONE):
+            cases.append({"seed": a.seed * 100 + 50 + j, "ops": ops, "core": True, "wait": None})
         cases.append({"seed": a.seed * 100 + 99, "ops": [["USER", "anonymous"], ["PASV", ""], ["PWD", ""], ["EPSV", ""], ["RETR", "f", {"connect": "before"}]], "core": True, "ipv6": True})
         core_n = len(cases)
 
